@@ -71,6 +71,7 @@ type NPRule struct {
 }
 
 type NetPol struct {
+	UID             string // optional metadata.uid (the analysis ignores it)
 	NS, Name        string
 	PodSel          Sel
 	Types           []string // "I", "E"
@@ -164,10 +165,25 @@ type World struct {
 // ---------------------------------------------------------------------------------------------
 // S-expression printing
 
+// an empty label value is written as the atom ~
+func tilde(s string) string {
+	if s == "" {
+		return "~"
+	}
+	return s
+}
+
+func untilde(s string) string {
+	if s == "~" {
+		return ""
+	}
+	return s
+}
+
 func sxLabels(head string, l []KV) *Sx {
 	r := Ls(At(head))
 	for _, kv := range l {
-		r.Add(Ls(At(kv[0]), At(kv[1])))
+		r.Add(Ls(At(kv[0]), At(tilde(kv[1]))))
 	}
 	return r
 }
@@ -315,7 +331,11 @@ func (o Obj) Sx() *Sx {
 		for _, r := range n.Egress {
 			eg.Add(sxNPRule(r))
 		}
-		return Ls(At("np"), At(n.NS), At(n.Name), sxSel(&n.PodSel), types, in, eg)
+		r := Ls(At("np"), At(n.NS), At(n.Name), sxSel(&n.PodSel), types, in, eg)
+		if n.UID != "" {
+			r.Add(Ls(At("uid"), At(n.UID)))
+		}
+		return r
 	case "anp":
 		a := o.Anp
 		return Ls(At("anp"), At(a.Name), Ai(int64(a.Prio)), sxSubject(a.Subject), sxARules("in", a.Ingress), sxARules("eg", a.Egress))
@@ -375,7 +395,7 @@ func (w *World) Sx() *Sx {
 func pLabels(s *Sx) []KV {
 	var r []KV
 	for _, kv := range s.Args() {
-		r = append(r, KV{kv.L[0].A, kv.L[1].A})
+		r = append(r, KV{kv.L[0].A, untilde(kv.L[1].A)})
 	}
 	return r
 }
@@ -529,6 +549,9 @@ func ParseWorld(s *Sx) (w *World, err error) {
 			}
 			for _, r := range o.L[6].Args() {
 				n.Egress = append(n.Egress, pNPRule(r))
+			}
+			if len(o.L) > 7 && o.L[7].Head() == "uid" {
+				n.UID = o.L[7].L[1].A
 			}
 			w.Objs = append(w.Objs, Obj{Kind: "np", Np: n})
 		case "anp":
@@ -807,7 +830,11 @@ func (o Obj) Doc() M {
 		if len(n.Egress) > 0 {
 			spec["egress"] = jNPRules(n.Egress, "to")
 		}
-		return M{"apiVersion": "networking.k8s.io/v1", "kind": "NetworkPolicy", "metadata": M{"name": n.Name, "namespace": n.NS}, "spec": spec}
+		md := M{"name": n.Name, "namespace": n.NS}
+		if n.UID != "" {
+			md["uid"] = n.UID
+		}
+		return M{"apiVersion": "networking.k8s.io/v1", "kind": "NetworkPolicy", "metadata": md, "spec": spec}
 	case "anp":
 		a := o.Anp
 		spec := M{"priority": a.Prio, "subject": jSubject(a.Subject)}
